@@ -1990,6 +1990,10 @@ int EGLPNUM_TYPENAME_ILLlib_chgsense (
 			rval = 1;
 			ILL_CLEANUP;
 		}
+		/* the range of the row belongs to its old sense: a row that becomes (or
+		 * stops being) a range constraint starts with range zero */
+		if (qslp->rangeval)
+			EGLPNUM_TYPENAME_EGlpNumZero (qslp->rangeval[rowlist[i]]);
 	}
 
 CLEANUP:
